@@ -69,6 +69,129 @@ CHECKS["C15"] = dict(
     technique="Coq proof (drop-while = filter on sorted lists) + vm_compute correspondence + falsifier",
     design="5/C15")
 
+ENGINE_TIE = ("Tie to the code: the hand-written model of the whole indicator engine and of all 27 _calculate_reading bodies "
+              "(Model/Engine.v) is executed over binary64 (vm_compute) on the same construction/calculate/append sequences as the "
+              "implementation and every reading on every candle is compared bit for bit on each run. ")
+
+CHECKS["C01"] = dict(
+    text="Theorems about the faithful engine model (resume index, skip-if-present, in-place set_reading): for every leaf indicator whose "
+         "_calculate_reading is pure and causal, any split of a stream into append chunks - into an empty or an already calculated "
+         "indicator - ends in exactly the store (or exception) of one calculate() over the whole stream (canonical causal semantics, "
+         "proved by induction over the loop for all streams, lengths and chunkings). The two obligations are discharged for HLA, TR, "
+         "OBV and EMA (all periods >= 1, all inputs not reading the own slot). " + ENGINE_TIE +
+         "Falsifier: incremental vs batch deep equality over all 27 kinds + Amorph wrappers, base/S/T/H/D timeframes, fill, HA.",
+    note="Proved on the base timeframe for leaf indicators; for the other 23 kinds, composite trees and collapsing timeframes the "
+         "property is decided by correspondence + falsifier (the manager half is C03_recollapse). Axioms: none.",
+    technique="Coq proof (canonical-semantics induction over the calculate loop; per-indicator causality lemmas) + vm_compute correspondence + falsifier",
+    design="5/C01")
+CHECKS["C02"] = dict(
+    text="Theorems (same model and scope as C01): calculate() over ds ++ more extends calculate() over ds (batch causality: no "
+         "look-ahead), and appending to a calculated indicator leaves every existing candle and reading untouched (no repaint). "
+         + ENGINE_TIE + "Falsifier: snapshot(t) minus the open bucket is a prefix of snapshot(t') on live appends, batch-on-prefix vs batch-on-whole.",
+    note="Leaf indicators with discharged obligations (HLA, TR, OBV, EMA) on the base timeframe; other kinds/timeframes by correspondence + falsifier. Axioms: none.",
+    technique="Coq proof (prefix stability of the canonical semantics) + vm_compute correspondence + falsifier", design="5/C02")
+CHECKS["C04"] = dict(
+    text="Theorems over the reals (round-half-even on round_value decimals, Flocq) about the recurrence specifications of SMA/EMA/RMA/WMA: "
+         "EMA and RMA obey r[t] = a x[t] + (1-a) r[t-1] within half a unit of the last decimal, SMA its incremental law, seeds are the "
+         "rounded window mean, no reading before `period` consecutive inputs, EMA stays inside the range of its inputs, and (for every "
+         "NumOps instance) position independence. The recurrence specs are tied to the code by their own bit-exact correspondence "
+         "(check_spec) and the engine model by check_ind; falsifier = independent textbook references incl. late-starting and zero-valued inputs.",
+    note="Binary64 rounding error, overflow and NaN are outside the real-number theorems. VWMA/HMA and the decay-weighted RMA seed: "
+         "correspondence + falsifier only. Axioms: the standard library's real-number axioms (ClassicalDedekindReals.sig_forall_dec, "
+         "sig_not_dec), Classical_Prop.classic and FunctionalExtensionality.functional_extensionality_dep, via Reals/Flocq.",
+    technique="Coq proof over R with Flocq rounding + two vm_compute correspondences + reference falsifier", design="5/C04")
+CHECKS["C05"] = dict(
+    text="Theorems over the reals: the true range dominates high-low and both gap distances and is >= 0, the TR reading is >= the rounded "
+         "high-low, ATR's Wilder step keeps it >= 0. All eleven indicators of the property are tied by the bit-exact engine "
+         "correspondence and compared with independent reference implementations (presence exactly, values within a stated tolerance).",
+    note="Only TR/ATR have theorems; STDEV, BBANDS, KC, Donchian, HL, HLA, Supertrend, STDEVTHRES, Counter are decided by correspondence "
+         "+ reference falsifier. Real-number axioms as for C04.",
+    technique="Coq proof over R + vm_compute correspondence + reference falsifier", design="5/C05")
+CHECKS["C06"] = dict(
+    text="Theorems: RSI = 100 - 100/(1+gain/loss) lies in [0,100] and is 100 when the average loss is 0, Wilder's averages stay >= 0 "
+         "(reals); OBV's step law (unchanged / +volume / -volume by the close) for every NumOps instance. All nine indicators: bit-exact "
+         "engine correspondence + recurrence-spec correspondence (RSI, ROC, OBV, VWAP) + independent references.",
+    note="MACD, STOCH, TSI, AROON, ADX, VWAP, ROC: correspondence + reference falsifier only. Real-number axioms as for C04.",
+    technique="Coq proof over R / generic NumOps + vm_compute correspondences + reference falsifier", design="5/C06")
+CHECKS["C07"] = dict(
+    text="Theorem: every recurrence specification computes a reading from a state and the newest candle only, and the state's buffer never "
+         "exceeds the indicator's window whatever the history (all NumOps instances). The specs reproduce the implementation bit for bit "
+         "(check_spec, run in C04-C06). Falsifier: executed-line counts (sys.monitoring) inside indicator/analysis/utils code for the "
+         "same trailing appends after histories of 150/600(/2400) candles must be identical, for every kind, Hexitals and always-None readings.",
+    note="Partial: CPU time is outside any Gallina model; the theorem bounds the state of the recurrence form, the tie to real execution "
+         "is the line-count measurement on sampled histories. Specs exist for 11 of 27 kinds. Axioms: none.",
+    technique="Coq proof (bounded state of the step functions) + line-count falsifier", design="5/C07")
+CHECKS["C08"] = dict(
+    text="Theorems about the Hexital model: a member on its own manager behaves exactly like the standalone indicator with the same "
+         "manager configuration (values and exceptions); members sharing a manager never alter candle OHLCV/timestamps nor each "
+         "other's entries (engine frame theorem, all 27 kinds). Falsifier: member vs standalone twin fed the same schedule, object/"
+         "dict/settings forms, Hexital-level timeframe/fill/lifespan/HA, base candles unaltered.",
+    note="The Hexital model is not executed against the code (no correspondence of its own); equality of several members sharing one "
+         "manager with their standalone twins is decided by the falsifier. Known finding K2 (lifespan + own timeframe seeded from trimmed candles). Axioms: none.",
+    technique="Coq proof (engine frame theorem, single-member refinement) + falsifier", design="5/C08")
+CHECKS["C09"] = dict(
+    text="Theorems over the reals: no step of the TR, ATR, HLA, OBV, VWAP, EMA recurrence can raise (every divisor non-zero), RSI never "
+         "divides by a zero loss. " + ENGINE_TIE + "Falsifier: degenerate regimes (flat, monotone, equal closes, tiny/micro moves, zero "
+         "volume, fill candles): no exception, all values finite, no gap after the first value of each output field.",
+    note="Finiteness is immediate in R; binary64 overflow is outside the theorem. Other kinds: correspondence (exceptions compared as an "
+         "enum) + falsifier. Known finding K1 (ROC over a zero-valued input). Real-number axioms as for C04.",
+    technique="Coq proof over R + vm_compute correspondence + falsifier on degenerate streams", design="5/C09")
+CHECKS["C10"] = dict(
+    text="Theorems over the reals, exact because rounding is monotone and fixes the grid: RSI in [0,100], TR >= rounded high-low >= 0, "
+         "ATR >= 0, EMA inside the range of its inputs, stored readings are fixed points of rounding. " + ENGINE_TIE +
+         "Falsifier: every relation of the property text on the implementation's output.",
+    note="STOCH/AROON/ADX/TSI ranges, band orderings, identities, Supertrend/Counter/OBV relations: correspondence + falsifier. Real-number axioms as for C04.",
+    technique="Coq proof over R + vm_compute correspondence + relation falsifier", design="5/C10")
+CHECKS["C13"] = dict(
+    text="Theorem (frame property, by induction over the engine interpreter and case analysis of all 27 _calculate_reading models): "
+         "calculate, calculate_index (+/- index), managed set_reading and every reading computation leave the candles' number, "
+         "timestamps, OHLCV, clean values, tags and every dictionary entry not named in the indicator's own tree exactly as they were; "
+         "purge removes exactly the tree's entries. Falsifier: B alone vs with A in both orders, and purge/recalculate/remove of A at "
+         "the end and in the middle of the stream, incl. targeted pairs (substring names, shared TR helper, BBANDS helpers).",
+    note="The theorem shows A never writes B's entries; that B's computation does not read A's entries (input independence) is decided "
+         "by the falsifier. Indicators sharing the parameterless helper 'TR' share that entry by design. Axioms: none.",
+    technique="Coq proof (frame theorem over the engine) + falsifier", design="5/C13")
+CHECKS["C14"] = dict(
+    text="Theorems: purge removes every entry of the indicator tree at any depth and nothing else (timestamps, OHLCV, other entries "
+         "untouched); calculate() is idempotent for leaf indicators with discharged obligations. " + ENGINE_TIE +
+         "(incl. calculate/recalculate/purge sequences). Falsifier: idempotence, recalculate fixpoint, purge exactness, calculate_index "
+         "on computed indices (+/-), and random programs over append/calculate/purge/recalculate/calculate_index/add/remove on Hexitals "
+         "(also members sharing helpers) ending in calculate() = batch state.",
+    note="Convergence of arbitrary operation programs to the batch state is decided by the falsifier. Axioms: none.",
+    technique="Coq proof (purge exactness, idempotence via canonical semantics) + vm_compute correspondence + program falsifier", design="5/C14")
+CHECKS["C16"] = dict(
+    text="Theorems for all 16 movement and 4 pattern functions, every argument, every candle list (whatever readings it carries) and every "
+         "valid index: evaluating at index i = evaluating at the default position on the list truncated after i (value or exception "
+         "alike), = evaluating at the negative index; Amorph's reading at i is the function at i. Tie: Model/Analysis.v executed over "
+         "binary64 against hexital.analysis on thousands of (function, arguments, index) probes incl. bools, dicts, out-of-range "
+         "indices. Falsifier: the three equalities + no exception on missing readings + Amorph live vs batch column, with planted pattern witnesses.",
+    note="Names must have at most one dot (hypothesis wf_afun; otherwise both code and model raise ValueError). 'Never raises on missing "
+         "readings' is decided by correspondence + falsifier. Axioms: none.",
+    technique="Coq proof (truncation lemmas for Python indexing/slicing) + vm_compute correspondence + falsifier", design="5/C16")
+CHECKS["C17"] = dict(
+    text="Theorems: candle geometry identities over the reals and their invariance under positive scaling and shifting; above/below are "
+         "strict and false on a missing reading; crossover/crossunder = above/below now and the opposite one candle earlier. Tie as C16. "
+         "Falsifier: reference predicates written from the docstrings for every movement function (indices >= 1, ties, missing and zero "
+         "readings), geometry on random candles, planted pattern witnesses with 2x margins, single-clause counter-witnesses, scaled/shifted copies.",
+    note="The windowed functions' documented meaning and the pattern shapes are decided by reference falsifier + correspondence. Real-number axioms as for C04 (geometry theorems only).",
+    technique="Coq proof over R / generic NumOps + vm_compute correspondence + reference falsifier", design="5/C17")
+CHECKS["C19"] = dict(
+    text="Theorems: calculating never alters a candle's timestamp, OHLCV, clean values or tag (frame theorem, all 27 kinds); the Candle / "
+         "dict / list(ts first) / list(ts last) encodings decode to the same candle. Falsifier: deep state snapshot before/after every "
+         "read accessor of Indicator and Hexital interleaved with appends, object usable afterwards and equal to an unread twin; "
+         "encodings give identical Hexital state on every timeframe and leave the caller's containers untouched.",
+    note="Partial: in a functional model the read accessors cannot have side effects, so purity of the code's accessors is decided by "
+         "the falsifier only; the decode model is not executed against the code. Axioms: none.",
+    technique="Coq proof (frame theorem; decode equalities) + state-snapshot falsifier", design="5/C19")
+CHECKS["C20"] = dict(
+    text="Theorems about the accessor models for every NumOps instance: negative and positive index address the same candle; "
+         "reading_by_index = Indicator.reading on valid indices and None otherwise; as_list is the column of readings; has_reading = "
+         "latest reading is not None; reading_count = trailing run of readings. Falsifier: all accessors of Indicator and Hexital "
+         "(plain and dotted names, all members and timeframes incl. filled ones longer than the default series) against direct candle inspection.",
+    note="The accessor models are tied to the code through their use inside the engine/analysis correspondences; Hexital-level "
+         "accessors are decided by the falsifier. Axioms: none.",
+    technique="Coq proof (Python-indexing lemmas) + falsifier", design="5/C20")
+
 NOT_YET = {}
 
 
